@@ -8,6 +8,7 @@ import (
 	"go/types"
 	"os"
 	"path/filepath"
+	"regexp"
 	"runtime"
 	"runtime/debug"
 	"sort"
@@ -133,8 +134,27 @@ func classifyPanic(p interface{}) (kind string, msg string) {
 	}
 }
 
-// panicSite reduces a panic message to a stable site key (function + what), no line numbers.
-func panicSite(kind, msg string) string {
+var addrRe = regexp.MustCompile(`0x[0-9a-f]+`)
+var numRe = regexp.MustCompile(`[0-9]+`)
+
+// panicSiteOf builds a stable site key: the panicking function plus what happened (no line numbers, addresses or values).
+func panicSiteOf(ex *Explorer, kind, detail string) string {
+	if kind == "nilderef" {
+		return detail // already "function what"
+	}
+	msg := detail
+	if ex.panicText != "" {
+		msg = ex.panicText
+	}
+	msg = addrRe.ReplaceAllString(msg, "")
+	msg = numRe.ReplaceAllString(msg, "N")
+	if len(msg) > 120 {
+		msg = msg[:120]
+	}
+	fn := ex.panicFn
+	if strings.HasPrefix(detail, "runtime error") || fn != "" {
+		return fn + " " + msg
+	}
 	return msg
 }
 
@@ -231,6 +251,10 @@ func (P *Program) Explore(pkgPath, fnName string, cfg Config) (*RunResult, error
 	defer ex.sol.Close()
 	ex.work = [][]int{{}}
 	sharded := cfg.Shards <= 1
+	pShard, pShards := cfg.Shard, cfg.Shards // prefix sharding
+	if cfg.SubShards > 1 {
+		pShard, pShards = cfg.Shard%cfg.SubShards, cfg.SubShards
+	}
 	for len(ex.work) > 0 {
 		if ex.Paths >= ex.cfg.MaxPaths {
 			ex.Truncated = true
@@ -243,19 +267,19 @@ func (P *Program) Explore(pkgPath, fnName string, cfg Config) (*RunResult, error
 			break
 		}
 		// sharding: breadth-first until enough open prefixes, then keep every n-th
-		if !sharded && ex.shardedByChoice {
+		if !sharded && ex.shardedByChoice && cfg.SubShards <= 1 {
 			sharded = true
 		}
-		if !sharded && len(ex.work) >= 4*cfg.Shards {
+		if !sharded && len(ex.work) >= 4*pShards {
 			var mine [][]int
 			for k, w := range ex.work {
-				if k%cfg.Shards == cfg.Shard {
+				if k%pShards == pShard {
 					mine = append(mine, w)
 				}
 			}
 			ex.work = mine
 			sharded = true
-			if cfg.Shard != 0 {
+			if pShard != 0 {
 				// counts of the common phase belong to shard 0
 				ex.Paths, ex.Pruned = 0, 0
 			}
@@ -277,7 +301,7 @@ func (P *Program) Explore(pkgPath, fnName string, cfg Config) (*RunResult, error
 			ex.Pruned++
 		case "panic", "nilderef":
 			ex.Paths++
-			site := detail
+			site := panicSiteOf(ex, outcome, detail)
 			ex.recordViolation("panic", "no-panic", site, "", nil)
 			ex.reach("panic:" + site)
 		case "deadlock":
